@@ -162,6 +162,21 @@ pub fn run_descriptors(seed: u64, per_case: usize, out: &mut dyn Write) {
     }
 }
 
+/// Every boundary value of every type (gen::boundary_values): known spellings with the default options, the unknown
+/// class with WriteUnknown + ReadUnknown; independent of the seed.
+pub fn run_boundary(k: usize, out: &mut dyn Write) {
+    std::panic::set_hook(Box::new(|_| {}));
+    let known = gen::known_props(rbx_reflection_database::get());
+    for (label, dom) in gen::boundary_doms(&xml_types(), &known, true, k, true, 6) {
+        let roots: Vec<Ref> = dom.root().children().to_vec();
+        let unknown = label.contains(".VerifBoundary.");
+        let (enc, dec) = if unknown { ("WriteUnknown", "ReadUnknown") } else { ("IgnoreUnknown", "IgnoreUnknown") };
+        let ev = xml_event(&format!("xbound:{}", label), &dom, &roots, enc, dec);
+        serde_json::to_writer(&mut *out, &ev).unwrap();
+        out.write_all(b"\n").unwrap();
+    }
+}
+
 /// Foreign documents (tools/foreign_xml.py): read each with rbx_xml's default options.
 pub fn run_foreign(input: &mut dyn std::io::BufRead, out: &mut dyn Write) {
     std::panic::set_hook(Box::new(|_| {}));
